@@ -94,6 +94,7 @@ VERSION_PROP = (
     "        return BeaconVersion.from_max_setting_enum(self.max_setting_enum)\n"
 )
 FROM_ENUM = "        return BeaconVersion(MAX_ENUM_TO_VERSION.get(enum, \"Unknown\"))\n"
+REGEX = "    REGEX_VERSION = r\"Cobalt Strike (?P<major>\\d+)\\.(?P<minor>\\d+)(\\.(?P<patch>\\d+))? \\((?P<date>.*)\\)\"\n"
 MAGIC_PE_SEEK = "    fh.seek(mz.e_lfanew + mz_offset)\n    magic_pe = fh.read(4).rstrip(b\"\\x00\")\n"
 
 # ----------------------------------------------------------------------------------------------- refactored shapes
@@ -359,8 +360,29 @@ T("C18", "twin-init-walrus-groupdict-append", VER, INIT, INIT_APPEND)
 T("C18", "twin-version-ternary", BC, VERSION_PROP, VERSION_TERNARY)
 T("C18", "twin-version-explicit-none-zero-keywords", BC, VERSION_PROP, VERSION_EXPLICIT)
 T("C18", "twin-lookup-temp-cls", VER, FROM_ENUM, "        text = MAX_ENUM_TO_VERSION.get(enum, \"Unknown\")\n        return cls(text)\n")
+# the version regex is judged on its syntax tree: spelling of the digit class, (non-)capturing helper group, anchors,
+# bounded repeats that cover every component of the tables, `[^)]*` for the date
+T("C18", "twin-regex-explicit-digit-class-noncapturing", VER, REGEX, "    REGEX_VERSION = r\"Cobalt Strike (?P<major>[0-9]+)\\.(?P<minor>[0-9]+)(?:\\.(?P<patch>[0-9]+))? \\((?P<date>.*)\\)\"\n")
+T("C18", "twin-regex-anchored-date-upto-paren", VER, REGEX, "    REGEX_VERSION = r\"^Cobalt Strike (?P<major>\\d+)\\.(?P<minor>\\d+)(\\.(?P<patch>\\d+))? \\((?P<date>[^)]+)\\)$\"\n")
+T("C18", "twin-regex-bounded-repeats", VER, REGEX, "    REGEX_VERSION = r\"Cobalt Strike (?P<major>\\d{1,2})\\.(?P<minor>\\d{1,3})(\\.(?P<patch>\\d{1,3}))? \\((?P<date>.*)\\)\"\n")
+T("C18", "twin-regex-concatenated-constant", VER, REGEX, "    REGEX_VERSION = r\"Cobalt Strike (?P<major>\\d+)\\.(?P<minor>\\d+)\" r\"(\\.(?P<patch>\\d+))?\" + r\" \\((?P<date>.*)\\)\"\n")
+T("C18", "twin-regex-date-fields-spelled-out", VER, REGEX, "    REGEX_VERSION = r\"Cobalt Strike (?P<major>\\d+)\\.(?P<minor>\\d+)(\\.(?P<patch>\\d+))? \\((?P<date>\\w{3} \\d{2}, \\d{4})\\)\"\n")
+T("C18", "twin-prepend-guard-one-or-more-mirrored", PE, PREPEND, "    if 1 <= mz_offset:\n        fh.seek(0)\n        prepend = fh.read(mz_offset)\n")
+T("C18", "twin-prepend-guard-not-equal-zero-negated", PE, PREPEND, "    if not mz_offset == 0:\n        fh.seek(0)\n        prepend = fh.read(mz_offset)\n")
 
 # ----------------------------------------------------------------------------------------------- mutants
+# the prepend read must be excluded for image base 0 (nonzero reasoning on the dominating facts); the "any other value"
+# case of the Machine distinction covers literals outside the vocabulary
+M("C18", "prepend-guard-admits-zero", PE, PREPEND, PREPEND.replace("if mz_offset > 0:", "if mz_offset >= 0:"), "C18.R6")
+M("C18", "scanner-accepts-literal-machine-outside-vocabulary", PE, "                    pestruct.IMAGE_FILE_MACHINE_I386,\n                ):\n                    return start_offset + offset\n", "                    pestruct.IMAGE_FILE_MACHINE_I386,\n                    0x01C0,\n                ):\n                    return start_offset + offset\n", "C18.R3")
+# R5 (version regex, by its syntax tree)
+M("C18", "regex-patch-mandatory", VER, REGEX, REGEX.replace("(\\.(?P<patch>\\d+))?", "(\\.(?P<patch>\\d+))"), "C18.R5")
+M("C18", "regex-major-minor-names-swapped", VER, REGEX, REGEX.replace("(?P<major>", "(?P<MINOR>").replace("(?P<minor>", "(?P<major>").replace("(?P<MINOR>", "(?P<minor>"), "C18.R5")
+M("C18", "regex-minor-single-digit", VER, REGEX, REGEX.replace("(?P<minor>\\d+)", "(?P<minor>\\d)"), "C18.R5")
+M("C18", "regex-separator-comma", VER, REGEX, REGEX.replace("(?P<major>\\d+)\\.", "(?P<major>\\d+),"), "C18.R5")
+M("C18", "regex-prefix-without-space", VER, REGEX, REGEX.replace("Cobalt Strike ", "CobaltStrike "), "C18.R5")
+M("C18", "regex-date-group-unnamed", VER, REGEX, REGEX.replace("(?P<date>.*)", "(.*)"), "C18.R5")
+M("C18", "regex-does-not-compile", VER, REGEX, REGEX.replace("(?P<date>.*)\\)", "(?P<date>.*))"), "C18.R5")
 # R2 (positions, located by role)
 M("C18", "scanner-reports-index-only", PE, "                    return start_offset + offset\n", "                    return offset\n", "C18.R2")
 M("C18", "helper-reports-next-byte", PE, "", "", "C18.R2", edits=_helper_edits(helper=HELPER.replace("return where, machine", "return where + 1, machine")))
